@@ -156,3 +156,50 @@ Proof.
   - destruct (u <=? 9223372036854775807) eqn:E; cbn [andb]; lia.
   - destruct (0 <=? z)%Z eqn:E; cbn [andb]; lia.
 Qed.
+
+(* ---------- SkipValue with the position at the throw = SkipValue ---------- *)
+Definition forget (a : ares) : sres :=
+  match a with AOk r => SOk r | AErr e _ => SErr e | AFuel => SFuel end.
+
+Lemma skip_rep_forget (s1 : list N -> ares) (s2 : list N -> sres) :
+  (forall d, forget (s1 d) = s2 d) ->
+  forall g cnt d, forget (skip_rep_at s1 g cnt d) = skip_rep s2 g cnt d.
+Proof.
+  intros H. induction g as [|g IH]; intros cnt d; cbn [skip_rep_at skip_rep]; destruct (cnt =? 0); try reflexivity.
+  rewrite <- (H d). destruct (s1 d); cbn [forget]; [apply IH | reflexivity | reflexivity].
+Qed.
+
+Lemma skip_at_forget : forall f d, forget (skip_at_impl f d) = skip_impl f d.
+Proof.
+  induction f as [|f IH]; intros d; [reflexivity|].
+  cbn [skip_at_impl skip_impl]. destruct d as [|b r1]; [reflexivity|].
+  destruct (vtype_eqb (m_ty (byte_meta b)) TUnknown); [reflexivity|].
+  match goal with |- forget (match ?h with _ => _ end) = _ => destruct h as [[size0 ext0]|] end; [|reflexivity].
+  destruct (take _ r1) as [[x r2]|]; [|reflexivity].
+  destruct (_ =? 0); [reflexivity|].
+  destruct (m_ty (byte_meta b)); try reflexivity; apply skip_rep_forget; exact IH.
+Qed.
+
+Lemma skip_at_value d : forget (skip_at d) = skip_value d.
+Proof. apply skip_at_forget. Qed.
+
+Lemma skip_at_exact d v r : decode d = Some (v, r) -> skip_at d = AOk r.
+Proof.
+  intros H. pose proof (skip_at_value d) as F. rewrite (skip_exact _ _ _ H) in F.
+  destruct (skip_at d); cbn [forget] in F; congruence.
+Qed.
+
+Lemma skip_at_no_fuel d : skip_at d <> AFuel.
+Proof.
+  intros H. pose proof (skip_at_value d) as F. rewrite H in F. cbn [forget] in F.
+  exact (skip_value_never_out_of_fuel d (eq_sym F)).
+Qed.
+
+Lemma skip_at_progress d r : skip_at d = AOk r -> (length r < length d)%nat.
+Proof.
+  intros H. pose proof (skip_at_value d) as F. rewrite H in F. cbn [forget] in F.
+  pose proof (skip_value_agrees d) as A. unfold agrees in A.
+  destruct (decode d) as [[v r']|] eqn:E.
+  - rewrite <- F in A. injection A as ->. eapply decode_shorter; eassumption.
+  - destruct A as [e A]. congruence.
+Qed.
